@@ -498,7 +498,20 @@ def c08(out, tier):
     res = TC.run_units(units, mir, ent)
     bounds = "all %d start states x %d symbolic characters (class vectors %s): exact_errors on/off, SIMD path on/off, profile on/off (clock stub), exact_errors under one-character feeds; 14 representative states with one more character and both runs chunked alike (every chunking); discard_bom on/off with first character != U+FEFF, and == U+FEFF against the input without it" % (len(tok.all_states(prog)), k, classes)
     npaths, obl = tok_finish(out, TC, tok, res, exe, exe_rel, "C08", False, "option variant vs default (tokens minus ParseError, line numbers)", bounds)
-    out.assumptions += ["drop_doctype (tree builder) and the XML tokenizer's options are not covered by this check (C15 covers XML exact_errors)",
+    # the tree builder's options over the composed parser: exact_errors and drop_doctype
+    from lib import treechecks as TR
+    if tree_self_validate(out, TC, mir, ent, exe, 40 if tier == "quick" else 400, C.seed() + 12):
+        tunits = tree_units("C08", tier)
+        tres = TC.run_units_fn(TR.unit_tree_diff, tunits, mir, ent)
+        tree_finish(out, TR, "C08", tres, exe, exe_rel)
+        tp = sum(r["paths"] for r in tres)
+        npaths += tp
+        obl += sum(r["obligations"] for r in tres)
+        out.units.append({"engine": "mirsym + z3", "what": "TreeBuilderOpts::{exact_errors, drop_doctype} flipped on the composed HTML parser (interpreted MIR): every sink call except parse errors "
+                          "(and the doctype itself for drop_doctype), the quirks mode and the feed results are equal, per pair of paths", "bounds": "%d templates (doctypes with symbolic names / identifiers incl. the quirks-mode tables; contexts x symbolic tags)" % len(tunits),
+                          "work_units": len(tres), "paths_explored": tp})
+        bounds += "; tree builder options on %d document templates" % len(tunits)
+    out.assumptions += ["the XML tokenizer's and XML tree builder's options are not covered by this check (C15 covers XML exact_errors)",
                         "profile: Instant/Duration are stubbed (every duration 0 ns), so only control flow through the profiling run loop is compared",
                         "the >=16-byte SSE2 stride loop itself is outside engine M's bound (summarised by contract)"]
     return finish_mc(out, npaths, obl, len(tok.all_states(prog)), [{"bounds": bounds}])
@@ -908,7 +921,7 @@ def tree_random_doc(rnd):
         if r < 0.45:
             at = ""
             if rnd.random() < 0.25:
-                at = " " + rnd.choice(["type=hidden", "a=1 b=2", "a=1 a=2", "encoding=text/html", "color=red", "xlink:href=x", "id=q class=r", "definitionurl=x", "selected"])
+                at = " " + rnd.choice(["type=hidden", "charset=utf-8", "http-equiv=Content-Type content='text/html; charset=x'", "a=1 b=2", "a=1 a=2", "encoding=text/html", "color=red", "xlink:href=x", "id=q class=r", "definitionurl=x", "selected"])
             parts.append("<%s%s%s>" % (t, at, "/" if rnd.random() < 0.1 else ""))
         elif r < 0.7:
             parts.append("</%s>" % t)
@@ -943,6 +956,10 @@ def tree_self_validate(out, TC, mir, ent, exe, n, seed):
         o = {}
         if rnd.random() < 0.3:
             o["scripting"] = False
+        if rnd.random() < 0.2:
+            o["exact_errors"] = True
+        if rnd.random() < 0.2:
+            o["drop_doctype"] = True
         if rnd.random() < 0.3:
             ctx = rnd.choice(TREE_CONTEXTS[1:])
             o["context"] = list(ctx)
@@ -967,7 +984,10 @@ def tree_self_validate(out, TC, mir, ent, exe, n, seed):
         elif panic or r["outcome"] != "ok":
             if not (panic and r["outcome"] != "ok"):
                 bad.append("%r %r: native %s, interpreted %s" % (r["doc"], r["opts"], panic, r["outcome"]))
-        elif tree != r["canon"]:
+        elif [l for l in tree if l.startswith("indicator ")] != r["indicators"]:
+            bad.append("%r %r: encoding indicators differ: native %r, interpreted %r" % (r["doc"], r["opts"], [l for l in tree if l.startswith("indicator ")], r["indicators"]))
+        elif [l for l in tree if not l.startswith("indicator ")] != r["canon"]:
+            tree = [l for l in tree if not l.startswith("indicator ")]
             k = next((i for i, (x, y) in enumerate(zip(tree, r["canon"])) if x != y), min(len(tree), len(r["canon"])))
             bad.append("%r %r: trees differ at line %d: native %r, interpreted %r" % (r["doc"], r["opts"], k, tree[k:k + 2], r["canon"][k:k + 2]))
         elif bool(contract) != bool(r["contract"]) or bool(trace) != bool(r["trace"]):
@@ -1086,6 +1106,44 @@ def tree_units(prop, tier):
             add("fragment with a form owner: %r script rest" % c, [c, "<script>s</script>", "</template><input><", N1, ">"], {"context": [HTML_NS_, "div"], "form": True})
         add("fragment with a script pause", ["<b>", "<script>s</script>", "<", N1, ">x</", N1, ">"], {"context": [HTML_NS_, "div"]})
         add("fragment in a template context", ["<td>", "<script>s</script>", "<", N2, ">x</", N1, ">"], {"context": [HTML_NS_, "template"]})
+    elif prop == "C08":
+        # (unit_tree_diff) base options vs one tree-builder option flipped
+        dd = {"variant": {"drop_doctype": True}, "no_doctype": True}
+        ee = {"variant": {"exact_errors": True}}
+        for nm, sh in (("symbolic doctype name", ["<!DOCTYPE ", N2, ">", W1, "<", N1, ">x"]),
+                       ("symbolic public identifier", ["<!DOCTYPE html PUBLIC \"", 2, "\">", W1, "<p>x"]),
+                       ("quirky public identifier prefix", ["<!DOCTYPE html PUBLIC \"-//W3C//DTD HTML 4.01 ", ("name", 3), "sitional//", N2, "\"", W1, ">", "<table><p>"]),
+                       ("system identifier", ["<!DOCTYPE html SYSTEM \"about:legacy-", ("name", 2), "mpat\">", "<", N1, ">"]),
+                       ("doctype after a comment and after content", ["<!--c-->", W1, "<!DOCTYPE ", N1, ">", "<p>", "<!DOCTYPE html>"]),
+                       ("no doctype", [W1, "<", N2, ">", W1]),
+                       ("limited quirks and a table in a paragraph", ["<!DOCTYPE html PUBLIC \"-//W3C//DTD XHTML 1.0 ", ("name", 2), "ameset//\">", "<p><table>"])):
+            units.append(dict({"name": "drop_doctype: " + nm, "shape": sh, "opts": {}, "max_paths": 3000}, **dd))
+            if not q:
+                units.append(dict({"name": "drop_doctype (fragment): " + nm, "shape": sh, "opts": {"context": [HTML_NS_, "div"]}, "max_paths": 3000}, **dd))
+        ctxs = ["", "<table>", "<select>", "<svg>", "<p><b>", "<template>", "<frameset>", "<table><tr><td>", "<head>", "<math><mi>"]
+        for c in (ctxs if not q else ctxs[:6]):
+            units.append(dict({"name": "exact_errors: %r then two symbolic tags" % c, "shape": [c, "<", N1, ">", W1, "</", N1, ">y"], "opts": {}, "max_paths": 3000}, **ee))
+            units.append(dict({"name": "exact_errors: %r then a symbolic end tag and characters" % c, "shape": [c, "</", N2, ">", 1, "</p>"], "opts": {}, "max_paths": 3000}, **ee))
+        return units
+    elif prop == "C19":
+        # (unit_meta) where a meta element may or may not be inserted as an HTML meta element
+        ctxs = ["", "<head>", "<head></head>", "<body>", "<table>", "<table><tr>", "<select>", "<template>", "<svg>", "<math><mi>", "<svg><foreignObject>", "<frameset>", "<title>", "<noscript>", "<p><b>"]
+        metas = {"charset attribute": ["<meta charset=", ("name", 2), ">"],
+                 "http-equiv (symbolic) + content": ["<meta http-equiv=", ("name", 12), " content='text/html; charset=", 2, "'>"],
+                 "content before http-equiv": ["<meta content='charset=", 2, "' http-equiv=content-type>"],
+                 "http-equiv without content / content without charset": ["<meta http-equiv=content-type><meta http-equiv=content-type content='", 3, "'>"],
+                 "charset and http-equiv together": ["<meta charset=", ("name", 1), " http-equiv=content-type content='charset=", 1, "'>"],
+                 "two metas and a symbolic tag between": ["<meta charset=a><", N2, "><meta charset=b>"],
+                 "self-closing and end tag": ["<meta charset=", ("name", 1), "/></meta><meta charset=c>"]}
+        for ci, c in enumerate(ctxs):
+            for mi, (mn, ms) in enumerate(metas.items()):
+                if q and (ci + mi + C.seed()) % 2:
+                    continue
+                units.append({"name": "%r %s" % (c, mn), "shape": [c] + ms, "opts": {}, "max_paths": 3000})
+        for cx in (TREE_CONTEXTS[1:] if not q else TREE_CONTEXTS[1:8]):
+            units.append({"name": "fragment in %s: charset attribute" % cx[1], "shape": metas["charset attribute"], "opts": {"context": list(cx)}, "max_paths": 3000})
+        units.append({"name": "chunked", "shape": ["<head><meta charset=", ("name", 2), "><meta charset=x>"], "opts": {"chunks": [12, 400]}, "max_paths": 3000})
+        return units
     elif prop == "C04":
         cs = ["", "<table><tr>", "<select>", "<svg>", "<template>", "<b><p>", "<frameset>", "<math><annotation-xml>"]
         for c in cs:
@@ -1160,10 +1218,25 @@ def tree_finish(out, TR, prop, res, exe, exe_rel):
                 elif prop == "C18":
                     confirmed = confirmed or bool(trace)
                     nat_msg = (trace[0] if trace else "") or nat_msg
-            what = {"C04": "the parser panics", "C05": "TreeSink contract broken", "C06": "document skeleton broken", "C18": "trace_handles misses a node"}[prop]
+                elif prop == "C08":
+                    t2, _, _, p2, _ = TR.native_doc(ex, v["chars"], dict(v["opts"], **v["variant"]))
+                    strip = (lambda ls: [l for l in ls if " doctype " not in l]) if v.get("no_doctype") else (lambda ls: ls)
+                    if strip(tree) != strip(t2) or bool(panic) != bool(p2):
+                        confirmed = True
+                        k_ = next((i for i, (x_, y_) in enumerate(zip(strip(tree), strip(t2))) if x_ != y_), min(len(tree), len(t2)))
+                        nat_msg = "base %s | variant %s" % (strip(tree)[k_:k_ + 2], strip(t2)[k_:k_ + 2])
+                elif prop == "C19":
+                    ind = [l for l in tree if l.startswith("indicator ")]
+                    want = TR.expected_indicators(tree)
+                    if ind != want and not panic:
+                        confirmed = True
+                        nat_msg = "reported %s, expected %s" % (ind, want)
+            what = {"C04": "the parser panics", "C05": "TreeSink contract broken", "C06": "document skeleton broken", "C18": "trace_handles misses a node",
+                    "C08": "a tree-builder option changes more than it may", "C19": "encoding indicators of feed() are not those of the qualifying meta elements"}[prop]
             if confirmed:
                 out.violation("%s on %r %s: %s [native: %s]" % (what, doc, v["opts"] or "", v["what"][:300], nat_msg[:300]),
-                              {"engine": "mirsym", "kind": "htmldoc", "prop": prop, "case": case, "chars": v["chars"], "opts": v["opts"], "native": nat_msg}, key)
+                              {"engine": "mirsym", "kind": "htmldoc", "prop": prop, "case": case, "chars": v["chars"], "opts": v["opts"], "native": nat_msg,
+                               "variant": v.get("variant"), "no_doctype": v.get("no_doctype", False)}, key)
             else:
                 out.inconclusive.append("%s counter-example %r %s (%s) does not reproduce natively" % (prop, doc, v["opts"] or "", v["what"][:120]))
 
@@ -1498,8 +1571,21 @@ def c19(out, tier):
     out.units.append({"engine": "mirsym + z3", "what": "extract_a_character_encoding_from_a_meta_element (interpreted MIR) vs the WHATWG algorithm, per path",
                       "shapes": [u["shape"] for u in units], "paths_explored": npaths, "obligations": obl})
     out.extra["models_used"] = sorted(set(x for r in res for x in r.get("models_used", [])))
+    # part (b): which <meta> start tags make feed() report an indicator, with which label, over the composed parser
+    from lib import treechecks as TR
+    if tree_self_validate(out, TC, mir, ent, exe, 40 if tier == "quick" else 400, C.seed() + 13):
+        tunits = tree_units("C19", tier)
+        tres = TC.run_units_fn(TR.unit_meta, tunits, mir, ent)
+        tree_finish(out, TR, "C19", tres, exe, exe_rel)
+        tp = sum(r["paths"] for r in tres)
+        npaths += tp
+        obl += sum(r["obligations"] for r in tres)
+        out.units.append({"engine": "mirsym + z3", "what": "composed HTML parser (interpreted MIR): the EncodingIndicator results of feed() are, in order, exactly the labels of the inserted HTML meta elements "
+                          "with a charset attribute or http-equiv=content-type + content yielding a label (WHATWG extraction, spec/meta_charset_ref.py); the element is attached when reported",
+                          "bounds": "%d templates: 15 contexts (head, after head, body, table, select, template, foreign content, frameset, RCDATA ...) x 7 meta variants with symbolic attribute values / names, fragment contexts, a chunk boundary" % len(tunits),
+                          "work_units": len(tres), "paths_explored": tp})
     out.assumptions += M_ASSUME[:1] + ["content strings are walked as shapes: concrete pieces interleaved with runs of symbolic bytes (ASCII, and 2-byte UTF-8 characters in separate runs)",
-                                       "part (b) of the property - in which insertion modes a <meta> raises the indicator, exactly once, and that resuming is clean - lives in the tree builder (rules.rs), which engine M does not encode: not claimed"]
+                                       "part (b) is checked on a bounded template list; 'resuming continues as if nothing had happened' is covered only in that the parse after the pause is the ordinary interpreted parse (no comparison with a run without the pause)"]
     return finish_mc(out, npaths, obl, len(units), [{"shapes": [u["shape"] for u in units]}])
 
 
@@ -1611,7 +1697,15 @@ def replay_native(r, path):
                 from lib import treechecks as TR
                 tree, contract, trace, panic, _ = TR.native_doc(exe, r["chars"], r["opts"])
                 nat = {"tree": tree[:40], "contract": contract, "trace": trace, "panic": panic}
-                b = {"C04": bool(panic), "C05": bool(contract) or bool(panic and "exit 7" in panic), "C06": bool(TR.skeleton_lines(tree)) and not panic, "C18": bool(trace)}[r["prop"]]
+                if r["prop"] == "C08":
+                    t2, _, _, p2, _ = TR.native_doc(exe, r["chars"], dict(r["opts"], **r["variant"]))
+                    strip = (lambda ls: [l for l in ls if " doctype " not in l]) if r.get("no_doctype") else (lambda ls: ls)
+                    b = strip(tree) != strip(t2) or bool(panic) != bool(p2)
+                    nat["variant_tree"] = t2[:40]
+                elif r["prop"] == "C19":
+                    b = [l for l in tree if l.startswith("indicator ")] != TR.expected_indicators(tree) and not panic
+                else:
+                    b = {"C04": bool(panic), "C05": bool(contract) or bool(panic and "exit 7" in panic), "C06": bool(TR.skeleton_lines(tree)) and not panic, "C18": bool(trace)}[r["prop"]]
             elif kind == "xmlser":
                 def merge(xs):
                     o = []
